@@ -26,6 +26,7 @@
 import TaRs.Props.C01
 import TaRs.Props.C02
 import TaRs.Lemmas.PercentagePriceOscillator
+import TaRs.Lemmas.StandardDeviation
 set_option linter.unusedSectionVars false
 namespace TaRs.Props.C09
 open TaRs TaRs.Gen TaRs.Rs TaRs.Spec
@@ -124,21 +125,13 @@ variable {F : Type} [Scalar F]
 
 theorem sd_m2_not_negative (hirr : Scalar.lt (Scalar.lit 0 0 : F) (Scalar.lit 0 0) = false)
     (s : StandardDeviation F) (x : F) (r : StandardDeviation F × F) (h : s.next x = some r) :
-    Scalar.lt r.1.m2 (Scalar.lit 0 0 : F) = false := by
-  unfold StandardDeviation.next at h
-  simp only [Option.bind_eq_bind, Option.bind_eq_some_iff, Option.pure_def, Option.some.injEq] at h
-  obtain ⟨t1, -, t2, -, t3, -, t5, -, t, -, rfl⟩ := h
-  cases hc : Scalar.lt t.m2 (Scalar.lit 0 0 : F)
-  · simp [hc]
-  · simp [hirr]
+    Scalar.lt r.1.m2 (Scalar.lit 0 0 : F) = false :=
+  StandardDeviation.next_m2_not_negative hirr s x r h
 
 /-- …and the value returned is computed from that clamped accumulator -/
 theorem sd_out_eq (s : StandardDeviation F) (x : F) (r : StandardDeviation F × F) (h : s.next x = some r) :
-    r.2 = Scalar.sqrt (Scalar.div r.1.m2 (Scalar.ofNat r.1.count : F)) := by
-  unfold StandardDeviation.next at h
-  simp only [Option.bind_eq_bind, Option.bind_eq_some_iff, Option.pure_def, Option.some.injEq] at h
-  obtain ⟨t1, -, t2, -, t3, -, t5, -, t, -, rfl⟩ := h
-  rfl
+    r.2 = Scalar.sqrt (Scalar.div r.1.m2 (Scalar.ofNat r.1.count : F)) :=
+  StandardDeviation.next_out_eq s x r h
 
 /-- the clamp over whole streams: after ANY sequence of inputs (finite or not, any scalar
     type) from ANY state, if no call panicked then the accumulator is not `< 0` -/
